@@ -34,6 +34,12 @@ ASSUMPTIONS = [
 
 def cases(tier: str, seed: int) -> List[Dict[str, Any]]:
     out = lattice_cases(tier, seed)
+    from models.ops import OPS as _OPS, default_cfg as _dc
+
+    for name, op in _OPS.items():
+        for env in ("default_dtype=float64", "default_dtype=bfloat16", "default_dtype=float16"):
+            for dt in ("float64", "float32"):
+                out.append({"kind": "probe", "op": name, "cfg": dict(_dc(op), dtype=dt), "seed": seed, "env": env})
     # call HISTORIES: the same op / factor used with several dtypes in sequence inside one process
     # ("never varies ... between repeated calls"): low precision first, then high precision
     from models.ops import OPS
@@ -117,7 +123,13 @@ def run_case(case: Dict[str, Any]) -> Dict[str, Any]:
         tol = 2e-5
     dev = deviations(op.name, cfg)
     ident = f"{op.name}|dev={'+'.join(dev) or 'none'}"
-    r = probe(op, cfg, case["seed"])
+    if case.get("env"):
+        from models.probe import probe_env
+
+        ident += "|env=" + case["env"]
+        r = probe_env(op, cfg, case["seed"], case["env"])
+    else:
+        r = probe(op, cfg, case["seed"])
     if "skipped" in r:
         return {"skipped": r["skipped"]}
     if "unit_exc" in r:
